@@ -620,7 +620,7 @@ func TestVerifC48(t *testing.T) {
 	if dir == "" {
 		dir = t.TempDir()
 	}
-	maxL := r.Pick(3, 4)
+	maxL := r.Pick(3, 5)
 	nShapes := r.Pick(c48quickShapes, len(c48shapes))
 	r.Set("bounds", fmt.Sprintf("points=%d (all of the plain-HTTP path), chain length 1..%d, verdict alphabet 5 (all vectors), request shapes=%d, response kinds 3, redirect kinds 2", len(c48points), maxL, nShapes))
 
